@@ -99,3 +99,61 @@ def sensornet_files(outdir, n, naming, minute0=10, drop_tail=0, info=None):
         name = f"channel 1 20200306 18{minute0 + f}46 00001.ddf" if naming == "oryx" else f"channel 1 20200306 002 {f + 1:05d}.ddf"
         open(os.path.join(outdir, name), "w", encoding="windows-1252", newline="").write("\n".join(h + rows) + "\n")
     return len(data)
+
+
+SILIXA_TEMPLATES = {"v4": "silixa_v4.5", "v6-single": "single_ended", "v7": "silixa_v7.0", "v8": "silixa_v8.1", "v6-double": "double_ended2"}
+
+
+def silixa_files_from(template, outdir, n, nx, stamps_utc, acq, acq_bw=None):
+    """File set written from any bundled Silixa template (xml v4 / v6 / v7 / v8; 4 or 6 recorded items): per-cell tagged values,
+    end-of-measurement stamps `stamps_utc` ('YYYY-MM-DDTHH:MM:SS', UTC), integer acquisition time(s). Returns (names, nitem)."""
+    src_f = sorted(G.glob(f"{D}/{SILIXA_TEMPLATES[template]}/*.xml"))[0]
+    src = open(src_f).read()
+    head, rest = src.split("<logData>", 1)
+    body, tail = rest.split("</logData>", 1)
+    first = re.search(r"<data[^>]*>\s*([^<]*?)\s*</data>", body)
+    pre = body[: first.start()]
+    nitem = first.group(1).count(",") + 1
+    inline = "\n" not in body[first.start(): first.end()]
+    tagopen = re.match(r"<data[^>]*>", body[first.start():]).group(0)
+    os.makedirs(outdir, exist_ok=True)
+    base = os.path.basename(src_f)
+    m = re.match(r"^(.*?_)(UTC_)?\d{8}_?\d{6}\.?\d{3}\.xml$", base)
+    prefix, utc = m.group(1), bool(m.group(2))
+    names = []
+    for f in range(n):
+        vals = lambda r: ",".join([f"{-5.0 + 0.5 * r:.4f}"] + [str(tag(f, r, it)) for it in range(1, nitem)])
+        rows = "".join((f"{tagopen}{vals(r)}</data>\n" if inline else f"{tagopen}\n{vals(r)}\n</data>\n") for r in range(nx))
+        end = stamps_utc[f]
+        from datetime import datetime, timedelta
+        start = (datetime.fromisoformat(end) - timedelta(seconds=acq + (acq_bw or 0))).strftime("%Y-%m-%dT%H:%M:%S")
+        t_all = head + "<logData>" + pre + rows + "  </logData>" + tail
+        t_all = re.sub(r"<(start|min)DateTimeIndex>[^<]*<", lambda mm: f"<{mm.group(1)}DateTimeIndex>{start}.000Z<", t_all)
+        t_all = re.sub(r"<(end|max)DateTimeIndex>[^<]*<", lambda mm: f"<{mm.group(1)}DateTimeIndex>{end}.000Z<", t_all)
+        t_all = re.sub(r"<acquisitionTime>[^<]*</acquisitionTime>", f"<acquisitionTime>{float(acq + (acq_bw or 0))}</acquisitionTime>", t_all)
+        t_all = re.sub(r"<AcquisitionTime>[^<]*</AcquisitionTime>", f"<AcquisitionTime>{float(acq)}</AcquisitionTime>", t_all)
+        t_all = re.sub(r"(<probe1Temperature[^>]*>)[^<]*(</probe1Temperature>)", lambda mm: f"{mm.group(1)}{1000 + f}{mm.group(2)}", t_all)
+        dgt = re.sub(r"[-:T]", "", end)
+        name = (f"{prefix}UTC_{dgt[:8]}_{dgt[8:]}.000.xml" if utc else f"{prefix}{dgt}000.xml")
+        names.append(name)
+        open(os.path.join(outdir, name), "w").write(t_all)
+    return names, nitem
+
+
+def apsensing_files(outdir, n, nx, stamps_utc):
+    """AP Sensing .xml set from the bundled template (items LAF, TEMP, ST, AST; time = creationDate, not zone aware): tagged cells"""
+    src_f = sorted(G.glob(f"{D}/ap_sensing/*.xml"))[0]
+    src = open(src_f, encoding="utf-8-sig").read()
+    head, rest = src.split("<logData>", 1)
+    body, tail = rest.split("</logData>", 1)
+    first = re.search(r"<data[^>]*>", body)
+    pre, tagopen = body[: first.start()], first.group(0)
+    os.makedirs(outdir, exist_ok=True)
+    names = []
+    for f in range(n):
+        rows = "".join(f"                {tagopen}{0.5 * r},{tag(f, r, 5)},{tag(f, r, 1)},{tag(f, r, 2)}</data>\n" for r in range(nx))
+        h = re.sub(r"<creationDate>[^<]*</creationDate>", f"<creationDate>{stamps_utc[f]}</creationDate>", head)
+        name = "_AP Sensing_N4386B_3_" + re.sub(r"[-:T]", "", stamps_utc[f]) + ".xml"
+        names.append(name)
+        open(os.path.join(outdir, name), "w", encoding="utf-8-sig").write(h + "<logData>\n" + rows + "              </logData>" + tail)
+    return names
